@@ -201,3 +201,171 @@ pub proof fn lemma_ext_parse_fold(s: Seq<Seq<u8>>, t: Seq<Seq<u8>>, ea: EView, e
         }
     }
 }
+
+// ---- L-INV (C09), order clauses: any listing of the attributes (order, repetition), any order of keywords / tfields with distinct
+// keys, either order of -u- and -t-  (stated on lower-case subtags without `true` values; letter case is lemma_ext_parse_fold) ----
+pub open spec fn attr_listing_ok(al: Seq<Seq<u8>>) -> bool { forall|i: int| 0 <= i < al.len() ==> is_utype(#[trigger] al[i]) && lower(al[i]) == al[i] }
+pub open spec fn u_gen_body(al: Seq<Seq<u8>>, ku: Seq<tinystr::TinyAsciiStr<4>>, m: KvMap) -> Seq<Seq<u8>> { al + kv_toks(ku, m) }
+pub open spec fn u_gen_toks(al: Seq<Seq<u8>>, ku: Seq<tinystr::TinyAsciiStr<4>>, m: KvMap) -> Seq<Seq<u8>> {
+    if al.len() == 0 && ku.len() == 0 { Seq::empty() } else { seq![tok_u()] + u_gen_body(al, ku, m) }
+}
+/// the view a -u- body with attribute listing `al` and keyword listing `ku` stands for
+pub open spec fn u_gen_view_ok(al: Seq<Seq<u8>>, ku: Seq<tinystr::TinyAsciiStr<4>>, m: KvMap, v: UView) -> bool {
+    &&& strictly_sorted(v.attrs)
+    &&& forall|x: Seq<u8>| v.attrs.contains(x) <==> al.contains(x)
+    &&& v.kw == kv_restrict(ku, m)
+}
+pub proof fn lemma_ext_u_gen(al: Seq<Seq<u8>>, ku: Seq<tinystr::TinyAsciiStr<4>>, m: KvMap, v: UView, rest: Seq<Seq<u8>>, ev: EView)
+    requires attr_listing_ok(al), kv_keys_ok(ku, m, true), u_gen_view_ok(al, ku, m, v), al.len() + ku.len() > 0, starts_singleton(rest), ev.u is None,
+    ensures
+        ext_parse(u_gen_toks(al, ku, m) + rest, ev) == ext_parse(rest, EView { u: Some(u_gen_body(al, ku, m) + rest), ..ev }),
+        u_expected(u_gen_body(al, ku, m) + rest, 0, u_end(u_gen_body(al, ku, m) + rest, 0), v),
+{
+    let kv = kv_toks(ku, m);
+    let ub = u_gen_body(al, ku, m);
+    let body = ub + rest;
+    let t = u_gen_toks(al, ku, m) + rest;
+    let na = al.len() as int;
+    let n = ub.len() as int;
+    lemma_kv_toks_len(ku, m);
+    assert(t[0] == tok_u());
+    assert(singleton(t[0]) == Sing::U);
+    assert(t.skip(1) =~= body);
+    assert forall|i: int| 0 <= i < na implies #[trigger] body[i] == al[i] by {}
+    assert forall|i: int| 0 <= i < kv.len() implies #[trigger] body[na + i] == kv[i] by {}
+    assert forall|i: int| 0 <= i < n implies u_shaped(#[trigger] body[i]) && (body[i].len() == 2 ==> is_ukey(body[i])) && (i < na ==> body[i].len() != 2) by {
+        if i < na { assert(body[i] == al[i]); assert(is_utype(al[i])); }
+        else { assert(body[na + (i - na)] == kv[i - na]); lemma_kv_toks_shape(ku, m, true, i - na); }
+    }
+    if n < body.len() { assert(body[n] == rest[0]); assert(!u_shaped(body[n])); }
+    lemma_u_end(body, 0, n);
+    assert(u_keys_ok(body, 0, n));
+    assert(body.skip(n) =~= rest);
+    if kv.len() > 0 { lemma_kv_toks_shape(ku, m, true, 0); assert(body[na + 0] == kv[0]); assert(body[na].len() == 2); }
+    if kv.len() == 0 { assert(na == n); }
+    lemma_u_first_key(body, na, n);
+    assert forall|x: Seq<u8>| v.attrs.contains(x) <==> (exists|i: int| 0 <= i < u_first_key(body, 0, n) && x == lower(#[trigger] body[i])) by {
+        if v.attrs.contains(x) {
+            assert(al.contains(x));
+            let i = choose|i: int| 0 <= i < al.len() && al[i] == x;
+            assert(body[i] == x && lower(body[i]) == x);
+        }
+        if exists|i: int| 0 <= i < na && x == lower(#[trigger] body[i]) {
+            let i = choose|i: int| 0 <= i < na && x == lower(#[trigger] body[i]);
+            assert(body[i] == al[i]);
+            assert(al[i] == x);
+            assert(al.contains(x));
+        }
+    }
+    assert forall|i: int| 0 <= i < na implies !is_key(true, #[trigger] body[i]) by {}
+    lemma_kv_fold_region(body, 0, na, ku, m, true);
+    assert(na + kv.len() == n);
+}
+
+pub open spec fn t_gen_body(tv: TView, kt: Seq<tinystr::TinyAsciiStr<4>>, m: KvMap) -> Seq<Seq<u8>> {
+    (if tv.has_lang { lid_toks(tv.lang) } else { Seq::<Seq<u8>>::empty() }) + kv_toks(kt, m)
+}
+pub open spec fn t_gen_toks(tv: TView, kt: Seq<tinystr::TinyAsciiStr<4>>, m: KvMap) -> Seq<Seq<u8>> {
+    if !tv.has_lang && kt.len() == 0 { Seq::empty() } else { seq![tok_t()] + t_gen_body(tv, kt, m) }
+}
+pub proof fn lemma_ext_t_gen(tv: TView, kt: Seq<tinystr::TinyAsciiStr<4>>, m: KvMap, rest: Seq<Seq<u8>>, ev: EView)
+    requires
+        tv.has_lang ==> lid_view_ok(tv.lang), kv_keys_ok(kt, m, false), tv.fields == kv_restrict(kt, m),
+        tv.has_lang || kt.len() > 0, starts_singleton(rest), ev.t is None,
+    ensures
+        ext_parse(t_gen_toks(tv, kt, m) + rest, ev) == ext_parse(rest, EView { t: Some(t_gen_body(tv, kt, m) + rest), ..ev }),
+        t_expected(t_gen_body(tv, kt, m) + rest, tv),
+{
+    let kv = kv_toks(kt, m);
+    let lt = if tv.has_lang { lid_toks(tv.lang) } else { Seq::<Seq<u8>>::empty() };
+    let tb = t_gen_body(tv, kt, m);
+    let body = tb + rest;
+    let t = t_gen_toks(tv, kt, m) + rest;
+    let f0 = lt.len() as int;
+    let n = tb.len() as int;
+    lemma_kv_toks_len(kt, m);
+    assert(t[0] == tok_t());
+    assert(singleton(t[0]) == Sing::T);
+    assert(t.skip(1) =~= body);
+    assert(body =~= lt + (kv + rest));
+    assert forall|i: int| 0 <= i < kv.len() implies #[trigger] body[f0 + i] == kv[i] by {}
+    if n < body.len() { assert(body[n] == rest[0]); }
+    let after = kv + rest;
+    if after.len() > 0 {
+        if kv.len() > 0 { lemma_kv_toks_shape(kt, m, false, 0); assert(after[0] == kv[0]); lemma_tkey_is_stopper(after[0]); }
+        else { assert(after[0] == rest[0]); lemma_tkey_is_stopper(after[0]); }
+    }
+    if tv.has_lang {
+        lemma_lid_roundtrip_suffix(tv.lang, after);
+        assert(lang_shaped(body[0]));
+        assert(t_f0(body) == f0);
+    } else {
+        lemma_kv_toks_shape(kt, m, false, 0);
+        assert(body[0] == kv[0]);
+        lemma_tkey_is_stopper(body[0]);
+        assert(t_f0(body) == 0);
+    }
+    assert forall|i: int| f0 <= i < n implies (#[trigger] body[i]).len() != 1 && (is_tkey(body[i]) || is_utype(body[i])) by {
+        assert(body[f0 + (i - f0)] == kv[i - f0]);
+        lemma_kv_toks_shape(kt, m, false, i - f0);
+    }
+    lemma_tf_end(body, f0, n);
+    if kv.len() > 0 {
+        lemma_kv_toks_shape(kt, m, false, 0);
+        assert(body[f0 + 0] == kv[0]);
+        assert(t_has_fields(body));
+    } else {
+        assert(n == f0);
+        if f0 < body.len() { assert(body[f0] == rest[0]); assert(!is_tkey(body[f0])); }
+        assert(!t_has_fields(body));
+    }
+    assert(t_end(body) == n);
+    if f0 < body.len() { lemma_tkey_is_stopper(body[f0]); }
+    assert(!t_err(body));
+    assert(body.skip(n) =~= rest);
+    lemma_kv_fold_region(body, f0, f0, kt, m, false);
+    assert(f0 + kv.len() == n);
+}
+
+/// C09 (order clauses): whichever of -u- / -t- comes first, however the attributes are listed (any order, any repetition) and
+/// in whichever order the keywords / tfields (distinct keys) are listed, the recogniser accepts and prescribes the SAME views
+pub proof fn lemma_ext_order_invariant(u_first: bool, tv: TView, kt: Seq<tinystr::TinyAsciiStr<4>>, mt: KvMap,
+                                       al: Seq<Seq<u8>>, ku: Seq<tinystr::TinyAsciiStr<4>>, mu: KvMap, uv: UView, xv: Seq<Seq<u8>>)
+    requires
+        tv.has_lang ==> lid_view_ok(tv.lang), kv_keys_ok(kt, mt, false), tv.fields == kv_restrict(kt, mt),
+        attr_listing_ok(al), kv_keys_ok(ku, mu, true), u_gen_view_ok(al, ku, mu, uv), x_view_wf(xv),
+    ensures ({
+        let tt = t_gen_toks(tv, kt, mt); let ut = u_gen_toks(al, ku, mu); let xt = x_toks(xv);
+        let toks = if u_first { ut + (tt + xt) } else { tt + (ut + xt) };
+        let r = ext_parse(toks, ev0());
+        &&& r is Ok
+        &&& (r->Ok_0.t is None) == (tt.len() == 0)
+        &&& (r->Ok_0.u is None) == (ut.len() == 0)
+        &&& (r->Ok_0.x is None) == (xv.len() == 0)
+        &&& (r->Ok_0.t is Some ==> t_expected(r->Ok_0.t->0, tv))
+        &&& (r->Ok_0.u is Some ==> u_expected(r->Ok_0.u->0, 0, u_end(r->Ok_0.u->0, 0), uv))
+        &&& (r->Ok_0.x is Some ==> x_expected(r->Ok_0.x->0, xv))
+    }),
+{
+    let tt = t_gen_toks(tv, kt, mt); let ut = u_gen_toks(al, ku, mu); let xt = x_toks(xv);
+    let has_t = tv.has_lang || kt.len() > 0;
+    let has_u = al.len() + ku.len() > 0;
+    assert(starts_singleton(xt)) by { if xv.len() > 0 { assert(xt[0] == tok_x()); } }
+    if u_first {
+        let r1 = tt + xt;
+        assert(starts_singleton(r1)) by { if has_t { assert(r1[0] == tok_t()); } else { assert(r1 =~= xt); } }
+        let e1 = if has_u { EView { u: Some(u_gen_body(al, ku, mu) + r1), ..ev0() } } else { ev0() };
+        if has_u { lemma_ext_u_gen(al, ku, mu, uv, r1, ev0()); } else { assert(ut + r1 =~= r1); }
+        let e2 = if has_t { EView { t: Some(t_gen_body(tv, kt, mt) + xt), ..e1 } } else { e1 };
+        if has_t { lemma_ext_t_gen(tv, kt, mt, xt, e1); } else { assert(r1 =~= xt); }
+        lemma_ext_x(xv, e2);
+    } else {
+        let r1 = ut + xt;
+        assert(starts_singleton(r1)) by { if has_u { assert(r1[0] == tok_u()); } else { assert(r1 =~= xt); } }
+        let e1 = if has_t { EView { t: Some(t_gen_body(tv, kt, mt) + r1), ..ev0() } } else { ev0() };
+        if has_t { lemma_ext_t_gen(tv, kt, mt, r1, ev0()); } else { assert(tt + r1 =~= r1); }
+        let e2 = if has_u { EView { u: Some(u_gen_body(al, ku, mu) + xt), ..e1 } } else { e1 };
+        if has_u { lemma_ext_u_gen(al, ku, mu, uv, xt, e1); } else { assert(r1 =~= xt); }
+        lemma_ext_x(xv, e2);
+    }
+}
